@@ -288,6 +288,230 @@ def memvec_part(run, quick):
             run.violation(key, "width/tiling: %s" % detail[:200], dict(desc, detail=detail))
 
 
+# ------------------------------------------------------------------------------------------
+# (d) memory reads evaluated through NON-EMPTY mappers with store histories
+# ------------------------------------------------------------------------------------------
+# recipes: ("mem", base-name, disp, width, endian) | ("cst", v, n) | ("reg", name, n) | ("zx"|"sx", t, n) | ("cat", [t..]) |
+#          ("slc", t, pos, n) | ("tst", c, a, b) | ("op", symbol, a, b) | ("neg", t) | ("memat", t, width)
+def mh_width(t):
+    """width dictated by the construction recipe (independent of amoco's own size bookkeeping)"""
+    k = t[0]
+    if k in ("cst", "reg"):
+        return t[2]
+    if k == "mem":
+        return t[3]
+    if k == "memat":
+        return t[2]
+    if k in ("zx", "sx"):
+        return t[2]
+    if k == "cat":
+        return sum(mh_width(x) for x in t[1])
+    if k == "slc":
+        return t[3]
+    if k == "tst":
+        return mh_width(t[2])
+    if k == "neg":
+        return mh_width(t[1])
+    if k == "op":
+        return 1 if t[1] == "==" else 2 * mh_width(t[2]) if t[1] == "**" else mh_width(t[2])
+    raise ValueError(t)
+
+
+class MapHist(object):
+    """names of one case: pointer-sized registers, external symbols / labels of several widths, constants"""
+
+    def __init__(self, E, mapper, psz):
+        self.E, self.mapper, self.psz = E, mapper, psz
+        self.r, self.q, self.s = (E.reg("%s%d" % (n, psz), psz) for n in "rqs")
+        self.z = E.reg("z1", 1)
+        self.regs = {}
+        self.bases = {"r": self.r, "q": self.q, "s": self.s, "K": E.cst(0x1000, psz), "K2": E.cst(0x1ffe, psz),
+                      "sym": E.ext("environ", size=psz), "sym8": E.ext("sym_b", size=8), "sym16": E.ext("sym_h", size=16),
+                      "sym32": E.ext("sym_w", size=32), "sym64": E.ext("stdout", size=64),
+                      "lab": E.lab("L_here", size=psz), "lab16": E.lab("L_short", size=16), "r+q": self.r + self.q}
+
+    def reg(self, name, n):
+        key = "%s_%d" % (name, n)
+        if key not in self.regs:
+            self.regs[key] = self.E.reg(key, n)
+        return self.regs[key]
+
+    def build(self, t):
+        E, k = self.E, t[0]
+        if k == "cst":
+            return E.cst(t[1], t[2])
+        if k == "reg":
+            return self.z if t[1] == "z" else self.reg(t[1], t[2])
+        if k == "mem":
+            return E.mem(self.bases[t[1]], t[3], disp=t[2], endian=t[4])
+        if k == "memat":
+            return E.mem(self.build(t[1]), t[2])
+        if k == "zx":
+            return self.build(t[1]).zeroextend(t[2])
+        if k == "sx":
+            return self.build(t[1]).signextend(t[2])
+        if k == "cat":
+            return E.composer([self.build(x) for x in t[1]])
+        if k == "slc":
+            return self.build(t[1])[t[2]:t[2] + t[3]]
+        if k == "tst":
+            return E.tst(self.build(t[1]), self.build(t[2]), self.build(t[3]))
+        if k == "neg":
+            return -self.build(t[1])
+        if k == "op":
+            return E.oper(t[1], self.build(t[2]), self.build(t[3]))
+        raise ValueError(t)
+
+    def value(self, rng, n, names=("sym", "sym8", "sym16", "sym32", "sym64", "lab", "lab16")):
+        """an n-bit right-hand side for a binding / store: constant, register, symbol or label of that width, or a mix"""
+        E = self.E
+        c = rng.random()
+        fit = [x for x in names if self.bases[x].size == n]
+        if c < 0.3 and fit:
+            return self.bases[rng.choice(fit)]
+        if c < 0.55:
+            return E.cst(rng.choice([0x1000, 0x1004, 0x2000, rng.getrandbits(n)]) & ((1 << n) - 1), n)
+        if c < 0.7:
+            return self.reg("v", n)
+        if c < 0.8 and n == self.psz:
+            return rng.choice([self.q, self.s]) + rng.choice([0, 4, -8])
+        if c < 0.9 and n >= 16 and any(self.bases[x].size >= n // 2 for x in names):
+            lo = rng.choice([x for x in names if self.bases[x].size >= n // 2])
+            return E.composer([self.bases[lo][0:n // 2], E.cst(rng.choice([0, 1]), n - n // 2)])
+        return self.reg("u", n)
+
+    def history(self, rng):
+        """a non-empty mapper: address registers bound to symbols / labels / constants / registers, then 0..4 stores"""
+        E = self.E
+        m = self.mapper()
+        desc = []
+        for g in (self.r, self.q):
+            if rng.random() < 0.75:
+                v = self.value(rng, self.psz)
+                try:
+                    m[g] = v
+                    desc.append("%s := %s" % (g, v))
+                except Exception:
+                    pass
+        for _ in range(rng.randrange(0, 5)):
+            b = rng.choice(["r", "r", "q", "s", "K", "K", "sym", "r+q"])
+            w = rng.choice([8, 16, 32, 64])
+            loc = E.mem(self.bases[b], w, disp=rng.choice([0, 0, 1, 2, 4, 5, -4]), endian=rng.choice([1, 1, -1]))
+            v = self.value(rng, w)
+            try:
+                m[loc] = v
+                desc.append("%s := %s" % (loc, v))
+            except Exception:
+                pass
+        if len(m) == 0:
+            m[self.z] = E.cst(rng.getrandbits(1), 1)
+            desc.append("z := bit")
+        return m, desc
+
+
+MH_WIDTHS = (8, 16, 32, 64, 8, 16, 32, 64, 12, 20, 3, 24, 1, 128)
+MH_BASES = ("r", "r", "q", "s", "K", "K2", "sym", "sym", "sym8", "sym16", "sym32", "sym64", "lab", "lab16", "r+q")
+
+
+def mh_shapes(rng, m):
+    """recipes around the memory read m"""
+    w = m[3]
+    k = ("cst", rng.getrandbits(w), w)
+    out = [m, ("zx", m, w + rng.choice([1, 8, 24, 56])), ("sx", m, w + rng.choice([3, 8, 32])), ("zx", m, 64 if w < 64 else w + 64),
+           ("cat", [m, ("reg", "t", 32)]), ("cat", [("cst", 5, 4), m, ("cst", 1, 4)]), ("cat", [("reg", "t", 8), m]),
+           ("cat", [m, ("mem", m[1], m[2] + max(1, w // 8), w, m[4])]),
+           ("tst", ("reg", "z", 1), m, k), ("tst", ("reg", "z", 1), k, m),
+           ("op", "+", m, k), ("op", "^", ("reg", "t", w), m), ("op", "**", m, k), ("op", "==", m, k), ("op", "<<", m, ("cst", 2, 8)),
+           ("neg", m), ("zx", ("op", "+", m, k), w + 8), ("cat", [("zx", m, w + 4), ("sx", m, w + 4)])]
+    if w >= 2:
+        lo = rng.randrange(0, w - 1)
+        n = rng.randrange(1, w - lo + 1)
+        out += [("slc", m, lo, n), ("slc", m, 0, max(1, w // 2)), ("zx", ("slc", m, lo, n), n + 8)]
+        if w > 8:
+            out.append(("slc", m, 8, w - 8))
+    if w in (16, 32, 64):
+        out += [("memat", m, rng.choice([8, 16, 32, 12])), ("memat", ("zx", ("mem", m[1], m[2], 8, m[4]), w), 16)]
+    return out
+
+
+def maphist_case(cx, rng):
+    """memory reads of byte-multiple and other widths evaluated through a non-empty mapper whose address registers are bound to
+    external symbols / labels / constants / registers and which holds stores: declared width and tiling of whatever is
+    returned.  An evaluation that raises is a refusal (counted), not a result of another width.
+    Returns (description, [(symptom, detail)], nresults, nrefused)"""
+    E = cx.E
+    cx.conf.Cas.complexity = 0
+    psz = rng.choice([32, 32, 64, 16])
+    H = MapHist(E, cx.mapper, psz)
+    noalias = rng.random() < 0.6
+    cx.conf.Cas.noaliasing = noalias
+    bad, nres, nexc = [], 0, 0
+    try:
+        m, hdesc = H.history(rng)
+        base = rng.choice(MH_BASES)
+        w = rng.choice(MH_WIDTHS)
+        read = ("mem", base, rng.choice([0, 0, 4, 1, -2, 0x100]), w, rng.choice([1, 1, -1]))
+        desc = {"pointer_size": psz, "noaliasing": noalias, "history": hdesc, "read": list(read)}
+        for t in mh_shapes(rng, read):
+            try:
+                want = mh_width(t)
+                e0 = H.build(t)
+            except (MemoryError, RecursionError):
+                raise
+            except Exception:
+                nexc += 1
+                continue
+            paths = [("build", lambda: e0), ("m(e)", lambda: m(H.build(t))), ("m(e).simplify()", lambda: m(H.build(t)).simplify()),
+                     ("m(e.simplify())", lambda: m(H.build(t).simplify())), ("e.eval(m)", lambda: H.build(t).eval(m))]
+            if t[0] == "mem":
+                paths.append(("m[e]", lambda: m[H.build(t)]))
+                paths.append(("m.M(e)[0:w]", lambda: m[H.build(t)][0:want]))
+            for pname, f in paths:
+                try:
+                    res = f()
+                except (MemoryError, RecursionError):
+                    raise
+                except Exception:
+                    nexc += 1
+                    continue
+                nres += 1
+                if res.size != want:
+                    bad.append(("width|maphist|%s|%s" % (t[0] if t[0] != "op" else "op" + t[1], pname),
+                                "%s of %s in mapper {%s} has width %d, construction dictates %d: %s" % (pname, e0, "; ".join(hdesc), res.size, want, res)))
+                    break
+                try:
+                    er = X.tiling_error(X.dump(res))
+                except Exception:
+                    er = None
+                if er:
+                    bad.append(("tiling|maphist|%s|%s" % (t[0] if t[0] != "op" else "op" + t[1], pname),
+                                "%s of %s in mapper {%s}: %s in %s" % (pname, e0, "; ".join(hdesc), er, res)))
+                    break
+    finally:
+        cx.conf.Cas.noaliasing = True
+    return desc, bad, nres, nexc
+
+
+def maphist_part(run, quick):
+    cx = c01.Ctx()
+    rng = random.Random(run.seed * 1583 + 12)
+    nres = nexc = 0
+    for _ in range(500 if quick else 8000):
+        try:
+            desc, bad, a, b = maphist_case(cx, rng)
+        except (MemoryError, RecursionError):
+            continue
+        nres += a
+        nexc += b
+        run.count(("maphist", json.dumps(desc, sort_keys=True)), nontrivial=len(desc["history"]) >= 2)
+        run.hist("maphist_read_base", desc["read"][1])
+        run.hist("maphist_read_width", str(desc["read"][3]))
+        for key, detail in bad[:2]:
+            run.violation(key, "width/tiling: %s" % detail[:240], dict(desc, detail=detail))
+    run.cov["maphist_results_checked"] = nres
+    run.cov["maphist_evaluations_refused"] = nexc
+
+
 class CaseTimeout(Exception):
     pass
 
@@ -355,6 +579,7 @@ def check(run):
             run.violation(o[0], "corpus case %s: %s" % (f.split("/")[-1], o[1][:120]), c)
     comp_part(run, quick)
     memvec_part(run, quick)
+    maphist_part(run, quick)
     shiftcount_part(run, quick)
     for r in results:
         run.cov["evaluations"] += r["n"]
